@@ -524,6 +524,7 @@ PROPS = {
             ("H2V.Props.C10", "H2V.Props.C10.reduction_signalled_first"),
             ("H2V.Props.C10", "H2V.Props.C10.own_decoder_reads_back_the_submitted_fields"),
             ("H2V.Props.C10", "H2V.Props.C10.own_decoder_lockstep_history"),
+            ("H2V.Props.C10", "H2V.Props.C10.block_cut_by_the_writer_reads_back"),
         ],
         "profiles": [
             {"name": "hpackenc", "quick": 700, "thorough": 8000, "shards": {"quick": 1, "thorough": 6}},
